@@ -178,20 +178,10 @@ fn nopanic_parent<const N: usize>(min_open: u8) {
     }
 }
 
-//@ harness: c17_nopanic_parent_5
-//@ property: C17
-//@ tier: quick
-//@ unwind: 8
-//@ functions: dc::find_subdevice_parent; Ports::topology; Topology::is_junction
-//@ bounds: 4 earlier devices + the device looked at; all link bits arbitrary (0..4 open ports each)
-//@ assumes: none
-//@ outside: more than 4 earlier devices (the search is a backwards scan, every element treated alike)
-//@ expect_fail: Ports::topology unreachable!("Invalid topology 0") on a device reporting no open port (finding F15)
-#[kani::proof]
-#[kani::unwind(8)]
-pub fn c17_nopanic_parent_5() {
-    nopanic_parent::<5>(0);
-}
+// (c17_nopanic_parent_5, which called find_subdevice_parent directly on devices with 0 open ports,
+// was retired after finding C17-A was repaired: the repair validates every device at the top of
+// assign_parent_relationships, so a 0-port device can no longer be an earlier "parent"; the no-panic
+// clause for arbitrary reports is decided at pass level by c17_nopanic_flags_2.)
 
 //@ harness: c17_nopanic_parent_open_5
 //@ property: C17
@@ -261,11 +251,21 @@ pub fn c17_ports_assign_any() {
     let l: [u16; 4] = kani::any();
     let mut p = Ports::new(a[0], a[1], a[2], a[3]);
     p.set_receive_times(t[0], t[1], t[2], t[3]);
+    // entry (upstream) port: the open port with the lowest receive time, first one on ties
+    let mut entry = 4usize;
+    let mut j = 0;
+    while j < 4 {
+        if a[j] && (entry == 4 || t[j] < t[entry]) {
+            entry = j;
+        }
+        j += 1;
+    }
     let mut free = false;
     let mut j = 0;
     while j < 4 {
         p.0[j].downstream_to = NonZeroU16::new(l[j]);
-        free |= a[j] && l[j] == 0;
+        // a free DOWNSTREAM port: open, not linked, and not the port the frame comes in on
+        free |= a[j] && l[j] == 0 && j != entry;
         j += 1;
     }
     let before = p;
@@ -275,7 +275,7 @@ pub fn c17_ports_assign_any() {
     kani::cover!(r.is_none());
     kani::cover!(r == Some(2));
     match r {
-        None => assert!(!free && p == before, "None although an open port is not linked"),
+        None => assert!(!free && p == before, "None although an open downstream port is not linked"),
         Some(n) => {
             let j = match n {
                 0 => 0,
@@ -288,6 +288,7 @@ pub fn c17_ports_assign_any() {
                 }
             };
             assert!(before.0[j].active && before.0[j].downstream_to.is_none());
+            assert!(j != entry, "child linked to the upstream port");
             assert!(p.0[j].downstream_to == NonZeroU16::new(idx));
         }
     }
@@ -585,7 +586,7 @@ fn overfull<const N: usize>() -> Result<(), Error> {
 #[kani::unwind(8)]
 pub fn c17_reject_overfull_4() {
     let r = overfull::<4>();
-    kani::cover!(r.is_ok());
+    kani::cover!(r.is_err());
     assert!(r.is_err(), "reports with more children than downstream ports accepted");
 }
 
